@@ -59,7 +59,7 @@ def run(ctx):
         else:
             for w in range(4):
                 worlds.append({"kind": "rc", "seed": s * 100 + w})
-        nshard = max(1, core.NCPU // max(1, len(worlds)) // (1 if q else 1))
+        nshard = max(1, core.NCPU // max(1, len(worlds))) * (1 if q else 3)      # thorough: smaller files (a 600 000-line trace exhausts the 3 GB heap of one TLC process)
         for wi, w in enumerate(worlds):
             for sh in range(nshard):
                 a = dict(w); a.update({"in": hist, "K": K, "G": G, "skip": sh, "stride": nshard})
